@@ -131,6 +131,20 @@ pub struct Config
     /// Component accessors go through the `single*` convenience accessors whenever exactly one entity carries the
     /// component and it is the addressed one.
     pub single_route: bool,
+    /// Reactors registered through `App::add_reactor(triggers, system)` when the app is built (persistent; all of the
+    /// same closure type). Their actor ids follow those of `actors`.
+    pub app_reactors: Vec<(Variant, Bundle)>,
+    /// An `EntityWorldReactor` added with `App::add_entity_reactor`; its actor id follows `actors` and
+    /// `app_reactors`. Entities are attached / detached with `Op::EwrAdd` / `Op::EwrRemove`.
+    pub ewr: Option<Variant>,
+}
+
+impl Config
+{
+    pub fn ewr_actor(&self) -> Option<ActorId>
+    {
+        self.ewr.map(|_| (self.actors.len() + self.app_reactors.len()) as ActorId)
+    }
 }
 
 pub fn no_ops() -> AlphabetFn { Arc::new(|_| Vec::new()) }
@@ -160,6 +174,8 @@ impl Config
             actor_signals: vec![],
             world_route: false,
             single_route: false,
+            app_reactors: vec![],
+            ewr: None,
             frame: None,
             final_ops: vec![],
             fixed_scripts: vec![],
